@@ -31,7 +31,7 @@ func init() {
 		Run: func(tier string, seed uint64, idx int) core.Result {
 			return runCluster("C01", "C01.cluster", tier, seed, idx)
 		},
-		Rule: "4 clients (puts with unique values, deletes, a few delete-ranges over 8 keys) against 5 real nodes (RF 3, 2 spares) under the real coordinator ShardController while 8..14 nemesis steps run (leader crash/restart with and without notification, node crashes to the flushed database image, stalled followers, node swaps, coordinator deaths and restarts, lost/delayed coordination messages); at the end faults stop, a leader is awaited (bounded; none => inconclusive) and every key is read from it; " +
+		Rule: "4 clients (puts with unique values, deletes, a few delete-ranges over 8 keys) against real nodes (RF 3, sometimes 5; 2 spares) under the real coordinator ShardController while 8..14 nemesis steps run (leader crash/restart with and without notification, node crashes to the flushed database image, stalled followers, node swaps, coordinator deaths and restarts, lost/delayed coordination messages); at the end faults stop, a leader is awaited (bounded; none => inconclusive) and every key is read from it; " +
 			"oracle per key, from call/return ticks of one logical clock: the final value must not come from a write that had returned before an acknowledged write or delete of that key was invoked; an absent key is legal only if some delete could be ordered after every acknowledged put; a final value nobody wrote is a violation; the same check is made on every later leader's first read of a key (on-line, after each election); " +
 			"non-trivial = >= 2 leaders served acknowledged writes and >= 30 acknowledged writes; distinct = (fault level, history hash)",
 		MinNontrivial:    func(tier string) int { return tierN(tier, 20, 480) },
